@@ -500,6 +500,22 @@ class Evaluator:
                     return recv[:n_] if m == "take" else recv[n_:]
             if m == "rev" and not e["args"]:
                 return list(reversed(recv))
+            if m in ("any", "all") and len(e["args"]) == 1 and e["args"][0].get("k") == "closure":
+                clo = e["args"][0]
+                if len(clo["inputs"]) != 1:
+                    raise Unknown("closure parameter pattern")
+                for x_ in recv:
+                    b_ = {}
+                    if not match_pat(clo["inputs"][0], x_, b_):
+                        raise Unknown("closure parameter pattern")
+                    env2 = dict(env)
+                    env2.update(b_)
+                    v_ = self.eval(clo["body"], env2)
+                    if not isinstance(v_, bool):
+                        raise Unknown("non-boolean predicate")
+                    if v_ == (m == "any"):
+                        return m == "any"
+                return m == "all"
         if m in ("clone", "copied", "as_ref", "to_owned", "deref"):
             return recv
         if isinstance(recv, str) and not e["args"]:
